@@ -1,0 +1,14 @@
+//go:build verif
+
+package shell_operator
+
+import (
+	"github.com/flant/shell-operator/pkg/task"
+	"github.com/flant/shell-operator/pkg/task/queue"
+)
+
+// VerifCombineBindingContextForHook exposes the unexported combineBindingContextForHook
+// to the verification harness (build tag verif only).
+func (op *ShellOperator) VerifCombineBindingContextForHook(tqs *queue.TaskQueueSet, q *queue.TaskQueue, t task.Task, stopCombineFn func(tsk task.Task) bool) *CombineResult {
+	return op.combineBindingContextForHook(tqs, q, t, stopCombineFn)
+}
